@@ -115,7 +115,7 @@ def witnesses(tier, seed):
         for (L, s) in [(4, 1), (8, 2), (16, 1), (16, 2), (16, 3), (32, 1), (8, 3)]:
             N = 1 + L * s + 2
             for kind in ('seq', 'fseq'):
-                for variant in ('expr', 'mexpr', 'iadd', 'miadd', 'sum', 'msum'):
+                for variant in ('expr', 'mexpr', 'iadd', 'miadd', 'isub', 'mimul', 'midiv', 'sum', 'msum'):
                     k += 1
                     f0 = k % 2
                     W.append(mk_read(t, [N], [Axis(kind, f0, f0 + L * s, s)], variant))
